@@ -10,3 +10,447 @@ Proof.
   destruct (b_end (bk r (r_head r)) <=? t) eqn:E; [reflexivity|].
   apply Z.leb_gt in E. lia.
 Qed.
+
+(* ---------- ring index arithmetic ---------- *)
+Lemma idx_sub_spec : forall n h m, (0 < n)%nat -> (h < n)%nat -> (m <= n)%nat ->
+  idx_sub n h m = if (m <=? h)%nat then (h - m)%nat else (h + n - m)%nat.
+Proof.
+  intros n h m Hn Hh Hm. unfold idx_sub.
+  destruct (m <=? h)%nat eqn:E.
+  - apply Nat.leb_le in E.
+    replace (h + n - m)%nat with ((h - m) + 1 * n)%nat by lia.
+    rewrite Nat.mod_add by lia. apply Nat.mod_small. lia.
+  - apply Nat.leb_gt in E. apply Nat.mod_small. lia.
+Qed.
+
+Lemma idx_add1_spec : forall n h, (0 < n)%nat -> (h < n)%nat ->
+  idx_add n h 1 = if (h + 1 =? n)%nat then 0%nat else (h + 1)%nat.
+Proof.
+  intros n h Hn Hh. unfold idx_add.
+  destruct (h + 1 =? n)%nat eqn:E.
+  - apply Nat.eqb_eq in E. rewrite E. apply Nat.mod_same. lia.
+  - apply Nat.eqb_neq in E. apply Nat.mod_small. lia.
+Qed.
+
+Lemma idx_sub_lt : forall n h m, (0 < n)%nat -> (idx_sub n h m < n)%nat.
+Proof. intros. unfold idx_sub. apply Nat.mod_upper_bound. lia. Qed.
+
+(* ---------- update_nth ---------- *)
+Lemma update_nth_length : forall A (f : A -> A) l i, length (update_nth i f l) = length l.
+Proof. induction l; destruct i; simpl; auto. Qed.
+
+Lemma nth_update_nth_same : forall A (f : A -> A) d l i, (i < length l)%nat -> nth i (update_nth i f l) d = f (nth i l d).
+Proof. induction l; intros i H; simpl in *; [lia|]. destruct i; simpl; auto. apply IHl. lia. Qed.
+
+Lemma nth_update_nth_other : forall A (f : A -> A) d l i j, i <> j -> nth j (update_nth i f l) d = nth j l d.
+Proof.
+  induction l; intros i j H; simpl; [destruct i; reflexivity|].
+  destruct i, j; simpl; auto; try congruence.
+Qed.
+
+(* ---------- ring consistency ---------- *)
+(* the `j` newest slots (counting back from the head) hold consecutive intervals ending at the end of history *)
+Definition cons_upto (j : nat) (r : ring) : Prop :=
+  (2 <= nb r)%nat /\ (r_head r < nb r)%nat /\ 0 < r_interval r /\
+  forall m, (m < j)%nat -> (m < nb r)%nat ->
+    b_start (bk r (idx_sub (nb r) (r_head r) m)) = eoh r - (Z.of_nat m + 1) * r_interval r /\
+    b_end (bk r (idx_sub (nb r) (r_head r) m)) = eoh r - Z.of_nat m * r_interval r.
+
+Definition ring_ok (r : ring) : Prop := cons_upto (nb r) r.
+
+Lemma nb_with_buckets : forall r bs, nb (with_buckets r bs) = length bs. Proof. reflexivity. Qed.
+
+Lemma rollover_core_nb : forall r, nb (rollover_core r) = nb r.
+Proof. intros. unfold rollover_core, nb. simpl. apply update_nth_length. Qed.
+
+Lemma rollover_core_buckets : forall r,
+  r_buckets (rollover_core r) =
+  update_nth (next_idx r (r_head r)) (fun _ => empty_bucket (eoh r) (eoh r + r_interval r)) (r_buckets r).
+Proof. reflexivity. Qed.
+
+Lemma rollover_core_head : forall r, r_head (rollover_core r) = next_idx r (r_head r).
+Proof. reflexivity. Qed.
+Lemma rollover_core_interval : forall r, r_interval (rollover_core r) = r_interval r.
+Proof. reflexivity. Qed.
+
+Lemma rollover_cons : forall j r, (1 <= j)%nat -> cons_upto j r -> cons_upto (S j) (rollover_core r).
+Proof.
+  intros j r Hj (Hn & Hh & Hi & Hc).
+  set (n := nb r) in *.
+  assert (Hnb : nb (rollover_core r) = n) by apply rollover_core_nb.
+  set (h' := next_idx r (r_head r)).
+  assert (Hh' : (h' < n)%nat) by (unfold h', next_idx, idx_add; apply Nat.mod_upper_bound; fold n; lia).
+  assert (Hbk : forall i, bk (rollover_core r) i =
+            if Nat.eqb i h' then empty_bucket (eoh r) (eoh r + r_interval r) else bk r i).
+  { intro i. unfold bk. rewrite rollover_core_buckets. fold h'.
+    destruct (Nat.eqb i h') eqn:E.
+    - apply Nat.eqb_eq in E. subst i. rewrite nth_update_nth_same; [reflexivity|]. exact Hh'.
+    - apply Nat.eqb_neq in E. apply nth_update_nth_other. congruence. }
+  assert (Heoh : eoh (rollover_core r) = eoh r + r_interval r).
+  { unfold eoh at 1. rewrite rollover_core_head. fold h'. rewrite Hbk, Nat.eqb_refl. reflexivity. }
+  unfold cons_upto. rewrite Hnb, rollover_core_head, rollover_core_interval. fold h'.
+  repeat split; try assumption.
+  - rewrite Heoh. destruct m as [|m'].
+    + rewrite idx_sub_spec by lia. cbn [Nat.leb]. rewrite Nat.sub_0_r, Hbk, Nat.eqb_refl. cbn [b_start b_end empty_bucket]. lia.
+    + assert (Hm' : (m' < j)%nat) by lia. assert (Hm'n : (m' < n)%nat) by lia.
+      destruct (Hc m' Hm' Hm'n) as [Hs _].
+      assert (Hidx : idx_sub n h' (S m') = idx_sub n (r_head r) m' /\ idx_sub n h' (S m') <> h').
+      { unfold h', next_idx. fold n. rewrite idx_add1_spec by lia.
+        rewrite (idx_sub_spec n (r_head r) m') by lia.
+        destruct (r_head r + 1 =? n)%nat eqn:E1.
+        - apply Nat.eqb_eq in E1. rewrite idx_sub_spec by lia.
+          destruct (S m' <=? 0)%nat eqn:E2; [apply Nat.leb_le in E2; lia|].
+          destruct (m' <=? r_head r)%nat eqn:E3; [apply Nat.leb_le in E3|apply Nat.leb_gt in E3]; lia.
+        - apply Nat.eqb_neq in E1. rewrite idx_sub_spec by lia.
+          destruct (S m' <=? r_head r + 1)%nat eqn:E2; [apply Nat.leb_le in E2|apply Nat.leb_gt in E2];
+          (destruct (m' <=? r_head r)%nat eqn:E3; [apply Nat.leb_le in E3|apply Nat.leb_gt in E3]); lia. }
+      destruct Hidx as [Hidx Hne]. rewrite Hbk.
+      destruct (Nat.eqb (idx_sub n h' (S m')) h') eqn:E; [apply Nat.eqb_eq in E; congruence|].
+      rewrite Hidx, Hs. lia.
+  - rewrite Heoh. destruct m as [|m'].
+    + rewrite idx_sub_spec by lia. cbn [Nat.leb]. rewrite Nat.sub_0_r, Hbk, Nat.eqb_refl. cbn [b_start b_end empty_bucket]. lia.
+    + assert (Hm' : (m' < j)%nat) by lia. assert (Hm'n : (m' < n)%nat) by lia.
+      destruct (Hc m' Hm' Hm'n) as [_ He].
+      assert (Hidx : idx_sub n h' (S m') = idx_sub n (r_head r) m' /\ idx_sub n h' (S m') <> h').
+      { unfold h', next_idx. fold n. rewrite idx_add1_spec by lia.
+        rewrite (idx_sub_spec n (r_head r) m') by lia.
+        destruct (r_head r + 1 =? n)%nat eqn:E1.
+        - apply Nat.eqb_eq in E1. rewrite idx_sub_spec by lia.
+          destruct (S m' <=? 0)%nat eqn:E2; [apply Nat.leb_le in E2; lia|].
+          destruct (m' <=? r_head r)%nat eqn:E3; [apply Nat.leb_le in E3|apply Nat.leb_gt in E3]; lia.
+        - apply Nat.eqb_neq in E1. rewrite idx_sub_spec by lia.
+          destruct (S m' <=? r_head r + 1)%nat eqn:E2; [apply Nat.leb_le in E2|apply Nat.leb_gt in E2];
+          (destruct (m' <=? r_head r)%nat eqn:E3; [apply Nat.leb_le in E3|apply Nat.leb_gt in E3]); lia. }
+      destruct Hidx as [Hidx Hne]. rewrite Hbk.
+      destruct (Nat.eqb (idx_sub n h' (S m')) h') eqn:E; [apply Nat.eqb_eq in E; congruence|].
+      rewrite Hidx, He. lia.
+Qed.
+
+Lemma cons_upto_weaken : forall j j' r, (j' <= j)%nat -> cons_upto j r -> cons_upto j' r.
+Proof. intros j j' r H (A & B & C & D). repeat split; auto; intros; apply D; lia. Qed.
+
+Lemma rollover_ok : forall r, ring_ok r -> ring_ok (rollover_core r).
+Proof.
+  intros r H. unfold ring_ok in *. rewrite rollover_core_nb.
+  apply cons_upto_weaken with (j := S (nb r)); [lia|].
+  apply rollover_cons; [destruct H; lia|assumption].
+Qed.
+
+(* operations that keep head, interval and every slot's interval keep consistency *)
+Definition same_frame (r r' : ring) : Prop :=
+  nb r' = nb r /\ r_head r' = r_head r /\ r_interval r' = r_interval r /\
+  forall i, b_start (bk r' i) = b_start (bk r i) /\ b_end (bk r' i) = b_end (bk r i).
+
+Lemma same_frame_refl : forall r, same_frame r r.
+Proof. intros. repeat split; auto. Qed.
+
+Lemma same_frame_trans : forall a b c, same_frame a b -> same_frame b c -> same_frame a c.
+Proof.
+  intros a b c (A1 & A2 & A3 & A4) (B1 & B2 & B3 & B4). repeat split; try congruence.
+  - rewrite (proj1 (B4 i)). apply A4.
+  - rewrite (proj2 (B4 i)). apply A4.
+Qed.
+
+Lemma same_frame_cons : forall j r r', same_frame r r' -> cons_upto j r -> cons_upto j r'.
+Proof.
+  intros j r r' (A & B & C & D) (H1 & H2 & H3 & H4).
+  assert (E : eoh r' = eoh r) by (unfold eoh; rewrite B; apply D).
+  unfold cons_upto. rewrite A, B, C, E. split; [auto|]. split; [auto|]. split; [auto|]. intros m Hm Hmn. split.
+  - rewrite (proj1 (D _)). apply H4; auto.
+  - rewrite (proj2 (D _)). apply H4; auto.
+Qed.
+
+Lemma same_frame_update : forall r i f,
+  (forall b, b_start (f b) = b_start b /\ b_end (f b) = b_end b) ->
+  same_frame r (with_buckets r (update_nth i f (r_buckets r))).
+Proof.
+  intros r i f Hf. unfold same_frame. rewrite nb_with_buckets, update_nth_length. repeat split; auto.
+  - unfold bk. simpl. destruct (Nat.eq_dec i i0) as [->|Hne].
+    + destruct (Nat.lt_ge_cases i0 (length (r_buckets r))).
+      * rewrite nth_update_nth_same by assumption. apply Hf.
+      * rewrite !nth_overflow; auto. rewrite update_nth_length. assumption.
+    + rewrite nth_update_nth_other by assumption. reflexivity.
+  - unfold bk. simpl. destruct (Nat.eq_dec i i0) as [->|Hne].
+    + destruct (Nat.lt_ge_cases i0 (length (r_buckets r))).
+      * rewrite nth_update_nth_same by assumption. apply Hf.
+      * rewrite !nth_overflow; auto. rewrite update_nth_length. assumption.
+    + rewrite nth_update_nth_other by assumption. reflexivity.
+Qed.
+
+Lemma same_frame_with_dia : forall r d, same_frame r (with_dia r d).
+Proof. intros. repeat split; auto. Qed.
+
+Lemma add_flow_frame : forall r f, same_frame r (fst (add_flow r f)).
+Proof.
+  intros r f. unfold add_flow. destruct (find_bucket r (f_start f)); simpl; [|apply same_frame_refl].
+  eapply same_frame_trans; [apply (same_frame_with_dia r)|].
+  match goal with |- same_frame (with_dia r ?d) _ =>
+    apply (same_frame_update (with_dia r d) n (bucket_add f)) end.
+  intros b. split; reflexivity.
+Qed.
+
+Definition set_pushed (b : bucket) : bucket :=
+  {| b_start := b_start b; b_end := b_end b; b_pushed := true; b_keys := b_keys b; b_stats := b_stats b |}.
+
+Lemma mark_pushed_frame : forall idxs r, same_frame r (with_buckets r (mark_pushed (r_buckets r) idxs)).
+Proof.
+  intros idxs r. unfold mark_pushed.
+  assert (G : forall idxs bs, same_frame (with_buckets r bs)
+            (with_buckets r (fold_left (fun bs i => update_nth i set_pushed bs) idxs bs))).
+  { induction idxs0 as [|i tl IH]; intros bs; simpl; [apply same_frame_refl|].
+    eapply same_frame_trans; [|apply IH].
+    apply (same_frame_update (with_buckets r bs) i set_pushed). intros b; split; reflexivity. }
+  specialize (G idxs (r_buckets r)).
+  assert (E : with_buckets r (r_buckets r) = r) by (destruct r; reflexivity).
+  rewrite E in G. exact G.
+Qed.
+
+Lemma emit_frame : forall r r' sent, emit r = Some (r', sent) -> same_frame r r'.
+Proof.
+  intros r r' sent H. unfold emit in H.
+  destruct (emit_walk r (emit_fuel r) _ _ []) as [cols|]; [|discriminate].
+  injection H as <- _.
+  set (sent0 := filter _ (rev cols)). clearbody sent0.
+  assert (G : forall cs bs, same_frame (with_buckets r bs)
+            (with_buckets r (fold_left (fun bs c => mark_pushed bs (c_buckets c)) cs bs))).
+  { induction cs as [|c tl IH]; intros bs; simpl; [apply same_frame_refl|].
+    eapply same_frame_trans; [|apply IH].
+    apply (mark_pushed_frame (c_buckets c) (with_buckets r bs)). }
+  specialize (G sent0 (r_buckets r)).
+  assert (E : with_buckets r (r_buckets r) = r) by (destruct r; reflexivity).
+  rewrite E in G. exact G.
+Qed.
+
+Lemma step_ok : forall r o, ring_ok r -> ring_ok (fst (step r o)).
+Proof.
+  intros r o H. destruct o as [f|[|]| |gte lt|gte lt]; simpl.
+  - pose proof (add_flow_frame r f) as F. destruct (add_flow r f) as [r' b]. simpl in *.
+    unfold ring_ok. rewrite (proj1 F). eapply same_frame_cons; eauto.
+  - pose proof (rollover_ok r H) as H1.
+    destruct (emit (rollover_core r)) as [[r2 sent]|] eqn:E; simpl; [|assumption].
+    pose proof (emit_frame _ _ _ E) as F. unfold ring_ok. rewrite (proj1 F). eapply same_frame_cons; eauto.
+  - apply rollover_ok; assumption.
+  - destruct (emit r) as [[r2 sent]|] eqn:E; simpl; [|assumption].
+    pose proof (emit_frame _ _ _ E) as F. unfold ring_ok. rewrite (proj1 F). eapply same_frame_cons; eauto.
+  - assumption.
+  - assumption.
+Qed.
+
+Lemma run_state_ok : forall ops r, ring_ok r -> ring_ok (run_state r ops).
+Proof. induction ops; intros r H; simpl; [assumption|]. apply IHops. apply step_ok. assumption. Qed.
+
+Lemma iter_rollover_cons : forall k r, cons_upto 1 r -> cons_upto (S k) (Nat.iter k rollover_core r) /\ nb (Nat.iter k rollover_core r) = nb r.
+Proof.
+  induction k; intros r H; simpl; [split; [assumption|reflexivity]|].
+  destruct (IHk r H) as [A B]. split.
+  - apply rollover_cons; [lia|assumption].
+  - rewrite rollover_core_nb. assumption.
+Qed.
+
+Lemma new_ring_ok : forall n interval now p k fw fa,
+  (2 <= n)%nat -> 0 < interval -> ring_ok (new_ring n interval now p k fw fa).
+Proof.
+  intros n interval now p k fw fa Hn Hi. unfold new_ring.
+  set (oldest := now + interval - interval * Z.of_nat n).
+  set (r0 := {| r_buckets := _ |}).
+  assert (Hnb : nb r0 = n).
+  { unfold nb, r0. simpl. destruct n as [|n']; [lia|]. simpl. rewrite repeat_length. reflexivity. }
+  assert (H0 : cons_upto 1 r0).
+  { unfold cons_upto. rewrite Hnb. repeat split; try (simpl; lia).
+    - assert (m = 0%nat) by lia. subst m. change (r_head r0) with 0%nat. rewrite idx_sub_spec by lia.
+      cbn [Nat.leb Nat.sub]. unfold eoh, bk, r0. cbn [r_buckets r_head r_interval].
+      destruct n; [lia|]. cbn [repeat nth empty_bucket b_start b_end]. lia.
+    - assert (m = 0%nat) by lia. subst m. change (r_head r0) with 0%nat. rewrite idx_sub_spec by lia.
+      cbn [Nat.leb Nat.sub]. unfold eoh, bk, r0. cbn [r_buckets r_head r_interval].
+      destruct n; [lia|]. cbn [repeat nth empty_bucket b_start b_end]. lia. }
+  destruct (iter_rollover_cons n r0 H0) as [A B].
+  unfold ring_ok. rewrite B, Hnb. apply cons_upto_weaken with (j := S n); [lia|assumption].
+Qed.
+
+Lemma reachable_ok : forall n interval now p k fw fa ops,
+  (2 <= n)%nat -> 0 < interval -> ring_ok (run_state (new_ring n interval now p k fw fa) ops).
+Proof. intros. apply run_state_ok. apply new_ring_ok; assumption. Qed.
+
+(* ---------- findBucket ---------- *)
+Lemma ring_ok_boh : forall r, ring_ok r -> boh r = eoh r - Z.of_nat (nb r) * r_interval r.
+Proof.
+  intros r (Hn & Hh & Hi & Hc). unfold boh.
+  assert (E : next_idx r (r_head r) = idx_sub (nb r) (r_head r) (nb r - 1)).
+  { unfold next_idx. rewrite idx_add1_spec, idx_sub_spec by lia.
+    destruct (r_head r + 1 =? nb r)%nat eqn:E1; [apply Nat.eqb_eq in E1|apply Nat.eqb_neq in E1];
+    (destruct (nb r - 1 <=? r_head r)%nat eqn:E2; [apply Nat.leb_le in E2|apply Nat.leb_gt in E2]); lia. }
+  rewrite E. rewrite (proj1 (Hc (nb r - 1)%nat ltac:(lia) ltac:(lia))).
+  replace (Z.of_nat (nb r - 1) + 1) with (Z.of_nat (nb r)) by lia. reflexivity.
+Qed.
+
+Lemma in_bucket_iff : forall b t, in_bucket b t = true <-> b_start b <= t < b_end b.
+Proof. intros. unfold in_bucket. rewrite andb_true_iff, Z.leb_le, Z.ltb_lt. tauto. Qed.
+
+(* every slot is `m` steps behind the head for exactly one m < n *)
+Lemma idx_is_back : forall n h i, (0 < n)%nat -> (h < n)%nat -> (i < n)%nat ->
+  exists m, (m < n)%nat /\ idx_sub n h m = i.
+Proof.
+  intros n h i Hn Hh Hi. destruct (Nat.le_gt_cases i h).
+  - exists (h - i)%nat. split; [lia|]. rewrite idx_sub_spec by lia.
+    destruct (h - i <=? h)%nat eqn:E; [apply Nat.leb_le in E|apply Nat.leb_gt in E]; lia.
+  - exists (h + n - i)%nat. split; [lia|]. rewrite idx_sub_spec by lia.
+    destruct (h + n - i <=? h)%nat eqn:E; [apply Nat.leb_le in E|apply Nat.leb_gt in E]; lia.
+Qed.
+
+Lemma idx_sub_inj : forall n h m1 m2, (0 < n)%nat -> (h < n)%nat -> (m1 < n)%nat -> (m2 < n)%nat ->
+  idx_sub n h m1 = idx_sub n h m2 -> m1 = m2.
+Proof.
+  intros n h m1 m2 Hn Hh H1 H2. rewrite !idx_sub_spec by lia.
+  destruct (m1 <=? h)%nat eqn:E1; [apply Nat.leb_le in E1|apply Nat.leb_gt in E1];
+  (destruct (m2 <=? h)%nat eqn:E2; [apply Nat.leb_le in E2|apply Nat.leb_gt in E2]); lia.
+Qed.
+
+(* The arithmetic of findBucket: in a consistent ring a time inside the retained history is sent, by the
+   division alone (the fallback scan is never reached), to the one slot whose interval contains it. *)
+Lemma find_bucket_spec : forall r t, ring_ok r ->
+  (boh r <= t < eoh r ->
+     exists idx, find_bucket r t = Some idx /\ (idx < nb r)%nat
+       /\ idx = idx_sub (nb r) (r_head r) (Z.to_nat ((eoh r - 1 - t) / r_interval r))
+       /\ b_start (bk r idx) <= t < b_end (bk r idx)
+       /\ b_end (bk r idx) = b_start (bk r idx) + r_interval r
+       /\ (b_start (bk r idx) - eoh r) mod r_interval r = 0
+       /\ forall j, (j < nb r)%nat -> b_start (bk r j) <= t < b_end (bk r j) -> j = idx)
+  /\ (~ (boh r <= t < eoh r) -> find_bucket r t = None).
+Proof.
+  intros r t Hok. pose proof (ring_ok_boh r Hok) as Hboh.
+  destruct Hok as (Hn & Hh & Hi & Hc). split.
+  - intros [Hlo Hhi]. unfold find_bucket. fold (eoh r).
+    destruct ((eoh r <=? t) || (t <? boh r)) eqn:E.
+    { apply orb_true_iff in E. rewrite Z.leb_le, Z.ltb_lt in E. lia. }
+    rewrite Z.quot_div_nonneg by lia.
+    set (q := (eoh r - 1 - t) / r_interval r).
+    assert (Hq : 0 <= q) by (apply Z.div_pos; lia).
+    pose proof (Z.mul_div_le (eoh r - 1 - t) (r_interval r) Hi) as Hq1. fold q in Hq1.
+    pose proof (Z.mul_succ_div_gt (eoh r - 1 - t) (r_interval r) Hi) as Hq2. fold q in Hq2.
+    assert (Hqn : q < Z.of_nat (nb r)) by nia.
+    set (m := Z.to_nat q). assert (Hm : (m < nb r)%nat) by lia.
+    assert (Hmq : Z.of_nat m = q) by lia.
+    destruct (Hc m Hm Hm) as [Hs He]. rewrite Hmq in Hs, He.
+    set (idx := idx_sub (nb r) (r_head r) m) in *.
+    assert (Hin : b_start (bk r idx) <= t < b_end (bk r idx)) by nia.
+    rewrite (proj2 (in_bucket_iff _ _) Hin).
+    exists idx. split; [reflexivity|]. split; [apply idx_sub_lt; lia|]. split; [reflexivity|].
+    split; [assumption|]. split; [lia|]. split.
+    + rewrite Hs. replace (eoh r - (q + 1) * r_interval r - eoh r) with ((- (q + 1)) * r_interval r) by lia.
+      apply Z.mod_mul. lia.
+    + intros j Hj Hjt. destruct (idx_is_back (nb r) (r_head r) j ltac:(lia) Hh Hj) as (m2 & Hm2 & <-).
+      destruct (Hc m2 Hm2 Hm2) as [Hs2 He2]. rewrite Hs2, He2 in Hjt.
+      assert (Z.of_nat m2 = q) by nia. assert (m2 = m) by lia. subst m2. reflexivity.
+  - intros Hout. unfold find_bucket. fold (eoh r).
+    destruct ((eoh r <=? t) || (t <? boh r)) eqn:E; [reflexivity|].
+    apply orb_false_iff in E. rewrite Z.leb_gt, Z.ltb_ge in E. lia.
+Qed.
+
+(* ---------- conservation at ingestion ---------- *)
+Definition stats_total (st : list (N * cnt)) : cnt := fold_right (fun pc acc => cadd (snd pc) acc) czero st.
+Definition win_total (ws : list window) : cnt := fold_right (fun w acc => cadd (w_cnt w) acc) czero ws.
+Definition dia_total (d : list (N * list window)) : cnt := fold_right (fun kw acc => cadd (win_total (snd kw)) acc) czero d.
+Definition ring_total (r : ring) : cnt := fold_right (fun b acc => cadd (stats_total (b_stats b)) acc) czero (r_buckets r).
+
+Lemma cadd_assoc : forall a b c, cadd (cadd a b) c = cadd a (cadd b c).
+Proof. intros [a1 a2] [b1 b2] [c1 c2]. unfold cadd. simpl. f_equal; lia. Qed.
+Lemma cadd_comm : forall a b, cadd a b = cadd b a.
+Proof. intros [a1 a2] [b1 b2]. unfold cadd. simpl. f_equal; lia. Qed.
+Lemma cadd_zero_l : forall a, cadd czero a = a.
+Proof. intros [a1 a2]. reflexivity. Qed.
+
+Lemma stats_add_total : forall p c st, stats_total (stats_add p c st) = cadd (stats_total st) c.
+Proof.
+  intros p c st. unfold stats_add. induction st as [|[k v] tl IH]; simpl.
+  - apply cadd_comm.
+  - destruct (N.eqb p k); simpl.
+    + rewrite !cadd_assoc. f_equal. apply cadd_comm.
+    + rewrite IH. rewrite cadd_assoc. reflexivity.
+Qed.
+
+Lemma win_add_total : forall ws s e c, win_total (win_add ws s e c) = cadd (win_total ws) c.
+Proof.
+  induction ws as [|w tl IH]; intros s e c; simpl.
+  - apply cadd_comm.
+  - destruct (s <=? w_start w); [destruct (w_start w =? s)|]; simpl.
+    + rewrite !cadd_assoc. f_equal. apply cadd_comm.
+    + apply cadd_comm.
+    + rewrite IH, cadd_assoc. reflexivity.
+Qed.
+
+Lemma dia_update_total : forall k s e c d,
+  dia_total (aupdate k (fun o => win_add (match o with Some ws => ws | None => [] end) s e c) d) = cadd (dia_total d) c.
+Proof.
+  intros k s e c d. induction d as [|[k' ws] tl IH]; simpl.
+  - destruct c as [c1 c2]. unfold cadd, czero. simpl. f_equal; lia.
+  - destruct (N.eqb k k'); simpl.
+    + rewrite win_add_total. rewrite !cadd_assoc. f_equal. apply cadd_comm.
+    + rewrite IH, cadd_assoc. reflexivity.
+Qed.
+
+Lemma update_nth_total : forall (f : bucket -> bucket) c l i, (i < length l)%nat ->
+  stats_total (b_stats (f (nth i l (empty_bucket 0 0)))) = cadd (stats_total (b_stats (nth i l (empty_bucket 0 0)))) c ->
+  fold_right (fun b acc => cadd (stats_total (b_stats b)) acc) czero (update_nth i f l)
+  = cadd (fold_right (fun b acc => cadd (stats_total (b_stats b)) acc) czero l) c.
+Proof.
+  induction l as [|x tl IH]; intros i Hi Hf; simpl in *; [lia|].
+  destruct i; simpl in *.
+  - rewrite Hf. rewrite !cadd_assoc. f_equal. apply cadd_comm.
+  - rewrite IH by (auto; lia). rewrite cadd_assoc. reflexivity.
+Qed.
+
+(* An accepted flow is added, once, to the statistics of the one bucket whose interval contains its start time and to
+   that bucket's window of the key's DiachronicFlow; every other bucket is untouched; a rejected flow changes nothing. *)
+Lemma add_flow_counted_once : forall r f r' ob, ring_ok r -> add_flow r f = (r', ob) ->
+  match ob with
+  | None => ~ (boh r <= f_start f < eoh r) /\ r' = r
+  | Some b =>
+      boh r <= f_start f < eoh r /\
+      exists idx, (idx < nb r)%nat /\ b = b_start (bk r idx) /\ b <= f_start f < b + r_interval r
+        /\ (forall j, (j < nb r)%nat -> b_start (bk r j) <= f_start f < b_end (bk r j) -> j = idx)
+        /\ bk r' idx = bucket_add f (bk r idx)
+        /\ (forall j, j <> idx -> bk r' j = bk r j)
+        /\ ring_total r' = cadd (ring_total r) (f_cnt f)
+        /\ dia_total (r_dia r') = cadd (dia_total (r_dia r)) (f_cnt f)
+  end.
+Proof.
+  intros r f r' ob Hok H. destruct (find_bucket_spec r (f_start f) Hok) as [Hin Hout].
+  unfold add_flow in H.
+  destruct (find_bucket r (f_start f)) as [idx|] eqn:E.
+  - cbv zeta in H. injection H as <- <-.
+    assert (Hr : boh r <= f_start f < eoh r).
+    { destruct (Z_le_dec (boh r) (f_start f)) as [A|A]; [destruct (Z_lt_dec (f_start f) (eoh r)) as [B|B]; [lia|]|].
+      - assert (X : Some idx = None) by (apply Hout; lia). discriminate.
+      - assert (X : Some idx = None) by (apply Hout; lia). discriminate. }
+    split; [assumption|].
+    destruct (Hin Hr) as (idx' & E' & Hlt & _ & Hrange & Hend & _ & Huniq). injection E' as <-.
+    exists idx. split; [assumption|]. split; [reflexivity|]. split; [lia|]. split; [assumption|].
+    split; [|split; [|split]].
+    + unfold bk. simpl. rewrite nth_update_nth_same by assumption. reflexivity.
+    + intros j Hj. unfold bk. simpl. apply nth_update_nth_other. congruence.
+    + unfold ring_total. simpl. apply update_nth_total; [assumption|].
+      simpl. apply stats_add_total.
+    + simpl. apply dia_update_total.
+  - injection H as <- <-. split; [|reflexivity].
+    intro Hr. destruct (Hin Hr) as (idx' & E' & _). discriminate.
+Qed.
+
+(* the model's answer to AddFlow satisfies the specification's acceptance rule (Spec.ok_add) in every consistent ring *)
+Lemma add_meets_spec : forall r f log em, ring_ok r ->
+  ok_add (nb r) (r_interval r) {| s_eoh := eoh r; s_log := log; s_emitted := em |} f (snd (add_flow r f)) = true.
+Proof.
+  intros r f log em Hok. pose proof (ring_ok_boh r Hok) as Hboh.
+  destruct (add_flow r f) as [r' ob] eqn:E. pose proof (add_flow_counted_once r f r' ob Hok E) as H.
+  assert (Hi : 0 < r_interval r) by (destruct Hok as (_ & _ & Hi & _); exact Hi).
+  simpl. unfold ok_add, in_history, s_boh, bstart. simpl.
+  destruct ob as [b|].
+  - destruct H as (Hr & idx & Hlt & Hb & Hrange & Huniq0 & _).
+    pose proof (find_bucket_spec r (f_start f) Hok) as [Hin _]. destruct (Hin Hr) as (idx' & _ & Hlt' & _ & Hr' & _ & Hmod & _).
+    assert (idx' = idx) by (apply Huniq0; assumption).
+    subst idx'. rewrite <- Hb in *.
+    assert (Hm : (f_start f - eoh r) mod r_interval r = f_start f - b).
+    { replace (f_start f - eoh r) with ((f_start f - b) + (b - eoh r)) by lia.
+      rewrite Z.add_mod by lia. rewrite Hmod, Z.add_0_r, Z.mod_mod by lia. apply Z.mod_small. lia. }
+    rewrite Hm. rewrite !andb_true_iff, !Z.leb_le, !Z.ltb_lt, Z.eqb_eq. lia.
+  - destruct H as [Hn _]. rewrite negb_true_iff, andb_false_iff, Z.leb_gt, Z.ltb_ge. lia.
+Qed.
